@@ -356,6 +356,15 @@ def designed_projects():
         'c.ucg': 'let g = import "rng.ucg";\nout toml {v = g.v, after = g.after};\n',
         'good.ucg': 'let t = {a = 1};\nout flags t;\n',
     }), [['a.ucg', 'b.ucg'], ['b.ucg', 'a.ucg', 'a.ucg'], ['c.ucg', 'c.ucg', 'good.ucg'], ['rng.ucg', 'rng.ucg'], ['rtlib.ucg', 'a.ucg', 'rng.ucg', 'c.ucg', 'good.ucg']]))
+    # a shared library whose (never called) function imports a missing file: every importer fails while its imports are linked, alone
+    # and at every place in a batch; a library that does not parse, imported at different depths
+    P.append((Project('link_fail', {
+        'lib.ucg': 'let v = 1;\nlet opt = func () => import "./missing.ucg";\n',
+        'a.ucg': 'let l = import "./lib.ucg";\nout json {a = l.v};\n',
+        'b.ucg': 'let l = import "lib.ucg";\nout json {b = l.v};\n',
+        'c.ucg': 'let b = import "b.ucg";\nout yaml {c = 1};\n',
+        'good.ucg': 'out json {g = 1};\n',
+    }), [['a.ucg', 'b.ucg'], ['b.ucg', 'a.ucg'], ['lib.ucg', 'a.ucg', 'good.ucg'], ['c.ucg', 'a.ucg', 'b.ucg'], ['good.ucg', 'a.ucg', 'a.ucg']]))
     # the same base names in two directories: whatever is shared must be keyed by the file, not by the spelling of the import
     P.append((Project('same_name', {
         'x/lib.ucg': 'let v = "from x";\nout json {v = v};\n',
